@@ -49,12 +49,12 @@ structure Rel (c : Cfg) (s : QueryScheduler) (m : S2) : Prop where
   interval : ((c.lo : Int), (c.hi : Int)) = s.first_random_delay_interval
   resolution : s.clock_resolution_millis = 0
 
-/-- what the timer effects of one call leave armed: `call_later` / `call_at` arm (replacing what was armed), `cancel` alone changes
-nothing the model tracks (it is always followed by a `call_at`) -/
+/-- what the timer effects of one call leave armed: `call_later` / `call_at` arm (replacing what was armed), `cancel` disarms -/
 def armedAfter (now : Int) (prev : Option (Timer × Int)) (effs : List SEffect) : Option (Timer × Int) :=
   effs.foldl (fun a e => match e with
     | .callLater d cb => some ((match cb with | .startup => Timer.startup | .ready => Timer.ready), now + d)
     | .callAt w cb => some ((match cb with | .startup => Timer.startup | .ready => Timer.ready), w)
+    | .cancel => none
     | _ => a) prev
 
 /-- the `async_send_ready_queries` calls as the model's `Send`s -/
@@ -88,7 +88,7 @@ theorem rel_arm {c : Cfg} {s : QueryScheduler} {m : S2} (h : Rel c s m) (w : Int
   ⟨h.sent, h.heap, h.dict, h.nextId, rfl, rfl, h.earliest, h.minDelay, h.types, h.interval, h.resolution⟩
 
 /-- closed form of `_rearm_if_earlier` -/
-theorem rearm_if_earlier_closed (s : QueryScheduler) (w : Int) (hl : s.loop.isSome) :
+theorem rearm_if_earlier_closed (s : QueryScheduler) (w : Int) (hl : s.next_run.isSome → s.loop.isSome) :
     s.rearm_if_earlier w =
       if s.next_run.isNone || decide (s.startup_queries_sent < 4) then .ok (s, [])
       else if max w s.earliest_next_run_millis < s.next_run_millis then
@@ -103,12 +103,12 @@ theorem rearm_if_earlier_closed (s : QueryScheduler) (w : Int) (hl : s.loop.isSo
     · simp [hn, h4, bind, Except.bind, pure, Except.pure]
     · by_cases hlt : max w s.earliest_next_run_millis < s.next_run_millis
       · simp only [hn, Option.isNone_some, h4, decide_false, Bool.or_self, Bool.false_eq_true, if_false, hlt, decide_true, if_true, pyUnwrap, bind,
-          Except.bind, pure, Except.pure, arm_ready_types_closed s _ hl, List.nil_append]
+          Except.bind, pure, Except.pure, arm_ready_types_closed s _ (hl (by rw [hn]; rfl)), List.nil_append]
         rfl
       · simp [hn, h4, hlt, bind, Except.bind, pure, Except.pure]
 
 /-- **`_rearm_if_earlier`** is the model's `rearmIfEarlier2` -/
-theorem rearm_if_earlier_eq {c : Cfg} {s : QueryScheduler} {m : S2} (h : Rel c s m) (w now : Int) (hl : s.loop.isSome) :
+theorem rearm_if_earlier_eq {c : Cfg} {s : QueryScheduler} {m : S2} (h : Rel c s m) (w now : Int) (hl : s.next_run.isSome → s.loop.isSome) :
     ∃ s' eff, s.rearm_if_earlier w = .ok (s', eff) ∧ Rel c s' (rearmIfEarlier2 m w) ∧ s'.loop = s.loop
       ∧ s'.store = s.store ∧ s'.query_heap = s.query_heap ∧ s'.next_scheduled_for_alias = s.next_scheduled_for_alias
       ∧ armedAfter now m.armed eff = (rearmIfEarlier2 m w).armed ∧ sendsOf c eff = [] := by
@@ -245,7 +245,7 @@ theorem dget_dset (k : String) (i : Nat) (d : Sched2.Dict) (a : String) :
 def StoreLe (a b : PyStore ScheduledPTRQuery) : Prop := ∀ j o, PyStore.get? a j = some o → PyStore.get? b j = some o
 
 /-- the constructor call followed by `_schedule_ptr_query`: the model's `schedule2` of the same query -/
-theorem schedule_new_eq' {c : Cfg} {s : QueryScheduler} {m : S2} (h : Rel c s m) (hok : StoreOk s) (hl : s.loop.isSome)
+theorem schedule_new_eq' {c : Cfg} {s : QueryScheduler} {m : S2} (h : Rel c s m) (hok : StoreOk s) (hl : s.next_run.isSome → s.loop.isSome)
     (o : ScheduledPTRQuery) (now : Int) :
     ∃ s' eff, QueryScheduler.schedule_ptr_query { s with store := (PyStore.alloc s.store o).2 } (PyStore.alloc s.store o).1 = .ok (s', eff)
       ∧ Rel c s' (schedule2 m (toQ o)) ∧ StoreOk s' ∧ s'.loop = s.loop
@@ -309,7 +309,7 @@ theorem schedule_new_eq' {c : Cfg} {s : QueryScheduler} {m : S2} (h : Rel c s m)
       rcases hsub _ _ _ i hi with h1 | h1
       · rw [PyStore.get?_alloc_old o (hok.heapIds i h1)]; exact hok.heapStored i h1
       · rw [h1, hnew]; rfl
-  have hl1 : s1.loop.isSome := hl
+  have hl1 : s1.next_run.isSome → s1.loop.isSome := hl
   obtain ⟨s', eff, he, hr, hloop, hst, hhp, hdc, harm, hsend⟩ := rearm_if_earlier_eq hrel1 o.when_millis now hl1
   refine ⟨s', eff, ?_, ?_, ?_, hloop, ?_, hsend, ?_⟩
   rotate_left 4
@@ -330,7 +330,7 @@ theorem schedule_new_eq' {c : Cfg} {s : QueryScheduler} {m : S2} (h : Rel c s m)
       by rw [hdc]; exact hok1.dictWF⟩
   · exact harm
 
-theorem schedule_new_eq {c : Cfg} {s : QueryScheduler} {m : S2} (h : Rel c s m) (hok : StoreOk s) (hl : s.loop.isSome)
+theorem schedule_new_eq {c : Cfg} {s : QueryScheduler} {m : S2} (h : Rel c s m) (hok : StoreOk s) (hl : s.next_run.isSome → s.loop.isSome)
     (o : ScheduledPTRQuery) (now : Int) :
     ∃ s' eff, QueryScheduler.schedule_ptr_query { s with store := (PyStore.alloc s.store o).2 } (PyStore.alloc s.store o).1 = .ok (s', eff)
       ∧ Rel c s' (schedule2 m (toQ o)) ∧ StoreOk s' ∧ s'.loop = s.loop
@@ -477,7 +477,7 @@ theorem map_objOf_life (st : PyStore ScheduledPTRQuery) (hp : List Nat) (i : Nat
 
 /-- **`_schedule_ptr_refresh`** (constructor call + `_schedule_ptr_query`) is the model's `schedule2` of the constructed query -/
 theorem schedule_ptr_refresh_eq {c : Cfg} {s : QueryScheduler} {m : S2} (lower : String → String) (h : Rel c s m)
-    (hok : StoreOk s) (hl : s.loop.isSome) (p : Rec) (a : String) (ha : Rec.attrAliasKey lower p = .ok a) (exp refresh now : Int) :
+    (hok : StoreOk s) (hl : s.next_run.isSome → s.loop.isSome) (p : Rec) (a : String) (ha : Rec.attrAliasKey lower p = .ok a) (exp refresh now : Int) :
     ∃ s' eff, QueryScheduler.schedule_ptr_refresh lower s p exp refresh = .ok (s', eff)
       ∧ Rel c s' (schedule2 m (toQ (ScheduledPTRQuery.init a p.name p.ttl exp refresh))) ∧ StoreOk s' ∧ s'.loop = s.loop
       ∧ armedAfter now m.armed eff = (schedule2 m (toQ (ScheduledPTRQuery.init a p.name p.ttl exp refresh))).armed ∧ sendsOf c eff = [] := by
@@ -491,7 +491,7 @@ theorem schedule_ptr_refresh_eq {c : Cfg} {s : QueryScheduler} {m : S2} (lower :
 the dict names for this alias is in the heap (in Python the dict holds the object itself; `Proofs/Sched2` proves it an invariant of
 the model).  The model's `dangling` error does not arise. -/
 theorem reschedule_ptr_first_refresh_eq {c : Cfg} {s : QueryScheduler} {m : S2} (lower : String → String) (h : Rel c s m)
-    (hok : StoreOk s) (hl : s.loop.isSome) (p : Rec) (a : String) (ha : Rec.attrAliasKey lower p = .ok a) (now : Int)
+    (hok : StoreOk s) (hl : s.next_run.isSome → s.loop.isSome) (p : Rec) (a : String) (ha : Rec.attrAliasKey lower p = .ok a) (now : Int)
     (hdh : ∀ i, PyDict.get? strEq s.next_scheduled_for_alias a = some i → i ∈ s.query_heap) :
     ∃ s' eff m', QueryScheduler.reschedule_ptr_first_refresh lower s p = .ok (s', eff)
       ∧ reschedule2 c m a p.name p.ttl p.created = .ok m'
@@ -578,7 +578,7 @@ theorem schedule_rescue_query_eq' {c : Cfg} {s : QueryScheduler} {m : S2} (h : R
   · have h1 : ¬ now * 1000 + (o.ttl : Int) * 1000 * 100 * 1 ≥ o.expire_time_millis * 1000 := by omega
     simp only [h1, hstop, decide_false, Bool.false_eq_true, if_false]
     obtain ⟨s', eff, he, hr, hk, hloop, harm, hsend, hle⟩ :=
-      schedule_new_eq' h hok hl (ScheduledPTRQuery.init o.alias o.name o.ttl o.expire_time_millis (now + (o.ttl : Int) * 100)) clk
+      schedule_new_eq' h hok (fun _ => hl) (ScheduledPTRQuery.init o.alias o.name o.ttl o.expire_time_millis (now + (o.ttl : Int) * 100)) clk
     have hq : toQ (ScheduledPTRQuery.init o.alias o.name o.ttl o.expire_time_millis (now + (o.ttl : Int) * 100))
         = { alias := o.alias, name := o.name, ttl := o.ttl, cancelled := o.cancelled, expire := o.expire_time_millis,
             when := now + (o.ttl : Int) * 100 } := by
